@@ -306,16 +306,6 @@ Fixpoint steady_consec (prev : list (text * list Z)) (polls : list (list (text *
   | [] => true
   | p :: r => no_decrease prev p && steady_consec p r
   end.
-(* the same against the last poll that listed anything at all -- what the code as written needs:
-   a poll that lists nothing returns before the cache is touched *)
-Fixpoint steady_cached (prev : list (text * list Z)) (polls : list (list (text * list Z))) : bool :=
-  match polls with
-  | [] => true
-  | p :: r => no_decrease prev p && steady_cached (match p with [] => prev | _ => p end) r
-  end.
-Definition nonempty_polls {A} (polls : list (list A)) : bool :=
-  forallb (fun p => match p with [] => false | _ => true end) polls.
-
 (* ------------------------------------------------ disk_usage *)
 (* property text: used = total - free-for-root, free = space available to unprivileged users,
    percent = used / (used + free) * 100  (0 when used + free = 0).
